@@ -187,6 +187,207 @@ def check_shared(rep, sc, outs, mout, idx, seed):
     return ncmp
 
 
+# ---------------------------------------------------------------- multiple-walker metadynamics
+import math, itertools
+
+SIG = 0.5          # hillWidth 2.0 x width 0.5 / 2
+WGT = 0.2
+
+
+def gauss(c, x):
+    q = ((x - c) / SIG) ** 2
+    return 0.0 if q > 23.0 else math.exp(-0.5 * q)
+
+
+def meta_scenario(rng, work, idx):
+    n = rng.randint(2, 3); u = rng.randint(2, 3); f = rng.randint(1, 2)
+    R = rng.choice([0, 0, 4, 6])           # colvarsRestartFrequency: peers' state files are rewritten then
+    S = rng.randint(10, 16)
+    d = os.path.join(work, "mw%d" % idx); os.makedirs(d)
+    dead = rng.randint(1, n - 1) if rng.rand() < 0.4 else -1        # a walker that stops early; its hills file is then cut
+    dead_at = rng.randint(4, S - 4)
+    cut = rng.randint(1, 90)
+    # or: a walker killed between publishing its new state file and restarting its hills file
+    crash = False
+    if R > 0 and rng.rand() < 0.6:
+        # the survivors re-read the dead walker's state after their own next state write: run them past it
+        crash = True; dead = rng.randint(0, n - 1); dead_at = R * rng.randint(1, 2); cut = 0
+        S = max(S, dead_at + R + 4)
+    cvc = inj_cv("x0", 0, -3.0, 3.0, 0.5)
+    def bias(w):
+        return ("metadynamics {\n name b\n colvars x0\n hillWeight 0.2\n hillWidth 2.0\n newHillFrequency %d\n useGrids off\n multipleReplicas on\n"
+                " replicaID w%d\n replicasRegistry registry.txt\n replicaUpdateFrequency %d\n}\n" % (f, w, u))
+    files = [[] for _ in range(n)]
+    tok = [0]
+    prev_tok = [None]
+    def ev(w, lines, fatal=False):
+        L = files[w]
+        if prev_tok[0] is not None:
+            L.append("x.wait %s" % prev_tok[0])
+        L.extend(lines)
+        if fatal:
+            prev_tok[0] = "dead.tok"          # created by the driver once that process has died
+        else:
+            L.append("x.touch tok%d" % tok[0]); prev_tok[0] = "tok%d" % tok[0]
+        tok[0] += 1
+    xs = [[rng.uniform(-2.0, 2.0) for _ in range(S + 1)] for _ in range(n)]
+    for w in range(n):
+        ev(w, ["m.new 1", "M.noclock", cfg(cvc), cfg(bias(w)), "m.opt restartfreq %d" % R, "m.opt prefix w%d" % w, pos(0, 0.0, 0.0, xs[w][0]), "m.step", "m.bias b"])
+    last = [S if w != dead else dead_at for w in range(n)]
+    order = [w for w in range(n) for _ in range(last[w])]
+    rng.shuffle(order)
+    cursor = [1] * n
+    events = []                # (walker, step, probe line in that walker's file)
+    did_cut = False
+    for w in order:
+        s_ = cursor[w]; cursor[w] += 1
+        pre = []
+        if dead >= 0 and not crash and not did_cut and cursor[dead] > last[dead] and w != dead:
+            pre = ["x.truncate w%d.colvars.b.w%d.hills -%d" % (dead, dead, cut)]; did_cut = True
+        fatal = crash and w == dead and s_ == dead_at
+        ev(w, pre + [pos(0, 0.0, 0.0, xs[w][s_]), "m.step", "m.bias b"], fatal=fatal)
+        if not fatal:
+            events.append((w, s_, len(files[w]) - 1))
+        else:
+            events.append((w, s_, None))
+    paths = []
+    for w in range(n):
+        pth = os.path.join(d, "w%d.txt" % w)
+        open(pth, "w").write("\n".join(files[w]) + "\n"); paths.append(pth)
+    return {"n": n, "u": u, "f": f, "R": R, "S": S, "dir": d, "files": paths, "events": events, "xs": xs, "dead": dead, "dead_at": dead_at, "cut": cut, "did_cut": did_cut, "crash": crash}
+
+
+def run_walkers_cwd(exe, files, cwd, timeout=240, crash_walker=-1, crash_remove=0):
+    procs = []
+    for w, f in enumerate(files):
+        env = dict(os.environ)
+        if w == crash_walker:
+            env.update(CV_FAULT_PREFIX=os.path.join(cwd, "w%d." % w), CV_FAULT_AT_REMOVE=str(crash_remove))
+        procs.append(subprocess.Popen([exe, f], cwd=cwd, env=env, stdout=subprocess.PIPE, stderr=subprocess.DEVNULL, text=True, errors="replace"))
+    outs = []
+    if crash_walker >= 0:
+        try:
+            o, _ = procs[crash_walker].communicate(timeout=timeout)
+        except subprocess.TimeoutExpired:
+            procs[crash_walker].kill(); o = ""
+        open(os.path.join(cwd, "dead.tok"), "w").write("1\n")
+        crashed = (procs[crash_walker].returncode, o)
+    for w, p in enumerate(procs):
+        if w == crash_walker:
+            outs.append(crashed); continue
+        try:
+            o, _ = p.communicate(timeout=timeout)
+            outs.append((p.returncode, o))
+        except subprocess.TimeoutExpired:
+            p.kill(); outs.append(("timeout", ""))
+    return outs
+
+
+def check_meta(rep, sc, outs, idx, seed):
+    n, u, f = sc["n"], sc["u"], sc["f"]
+    replay = "#! multiple-walker metadynamics: %d walkers, newHillFrequency %d, replicaUpdateFrequency %d, restart frequency %d%s\n" % (
+        n, f, u, sc["R"], (", walker %d is killed at step %d after renaming its new state file, before restarting its hills file (CV_FAULT_PREFIX=<dir>/w%d. CV_FAULT_AT_REMOVE=%d)" % (sc["dead"], sc["dead_at"], sc["dead"], 2 + 2 * (sc["dead_at"] // sc["R"]))) if sc.get("crash") else (", walker %d stops after step %d and its hills file loses its last %d bytes" % (sc["dead"], sc["dead_at"], sc["cut"]) if sc["dead"] >= 0 else ""))
+    replay += "#! run each file below with the harness in one common directory, all at once\n"
+    for w in range(n):
+        replay += "#! ---- walker %d ops\n" % w + open(sc["files"][w]).read()
+    po = []
+    for w, (rc, o) in enumerate(outs):
+        if sc.get("crash") and w == sc["dead"]:
+            if rc != 77:
+                rep.violation("multiple-walker metadynamics: the walker that was to be killed between its state file and its hills file ended with status %r (scenario %d)" % (rc, idx),
+                              replay, "mw_nokill_%d_seed%d" % (idx, seed), found_input=False)
+                return 0
+        elif rc != 0:
+            rep.violation("multiple-walker metadynamics: walker %d of %d ended with status %r (scenario %d)" % (w, n, rc, idx), replay, "mw_crash_%d_seed%d" % (idx, seed), found_input=True)
+            return 0
+        po.append(cvlib.parse_out(o)[0])
+    # hills each walker deposits: at its steps s >= 1 with s % f == 0, centred at its position
+    hills = [[(s_, sc["xs"][w][s_]) for s_ in range(1, (sc["S"] if w != sc["dead"] else sc["dead_at"]) + 1) if s_ % f == 0] for w in range(n)]
+    nprobe = 0
+    done = [0] * n                 # steps completed so far by each walker, in the global order
+    share_seen = [[0] * n for _ in range(n)]    # share_seen[i][p]: hills of p flushed when i last read (lower bound on what i holds)
+    flushed = [0] * n              # hills of p flushed so far (p flushes at its own share steps)
+    prev_seen = [[0] * n for _ in range(n)]
+    for (w, s_, ln) in sc["events"]:
+        done[w] = s_
+        nown = len([h for h in hills[w] if h[0] <= s_])
+        if s_ % u == 0:
+            flushed[w] = nown
+            prev_seen[w] = list(share_seen[w])
+            share_seen[w] = list(flushed)
+        if ln is None:
+            continue          # the step during which that walker was killed
+        e = getv(po[w], ln, "e")
+        if e is None:
+            rep.violation("multiple-walker metadynamics: walker %d reported no energy at step %d" % (w, s_), replay, "mw_noenergy_%d_seed%d" % (idx, seed), found_input=True)
+            return nprobe
+        e = e[0]; x = sc["xs"][w][s_]
+        own = sum(WGT * gauss(c, x) for (t, c) in hills[w] if t <= s_)
+        peers = [p for p in range(n) if p != w]
+        # every peer contributes a prefix of its hills: each hill once, in order, nothing invented
+        sums = []
+        for p in peers:
+            upper = len([h for h in hills[p] if h[0] <= done[p]])
+            acc = [0.0]
+            for (t, c) in hills[p][:upper]:
+                acc.append(acc[-1] + WGT * gauss(c, x))
+            sums.append(acc)
+        found = None
+        for ks in itertools.product(*[range(len(a)) for a in sums]):
+            tot = own + sum(a[k] for a, k in zip(sums, ks))
+            if abs(tot - e) <= 1e-9 + 1e-9 * abs(e):
+                found = ks if found is None else tuple(max(a, b) for a, b in zip(found, ks))
+        nprobe += 1
+        if found is None and sc["R"] > 0:
+            # listed finding: hills a peer deposited before it last rewrote its state file (and restarted its hills file) are
+            # missing until this walker re-reads the peers' states: the peer contributes hills j..k with all of 0..j-1 older
+            # than that rewrite
+            wins = []
+            for p, acc in zip(peers, sums):
+                lastw = (done[p] // sc["R"]) * sc["R"]
+                opts = []
+                for j in range(len(acc)):
+                    if j > 0 and hills[p][j - 1][0] > lastw:
+                        break
+                    for k in range(j, len(acc)):
+                        opts.append((j, k, acc[k] - acc[j]))
+                wins.append(opts)
+            hit = None
+            for combo in itertools.product(*wins):
+                tot = own + sum(c[2] for c in combo)
+                if abs(tot - e) <= 1e-9 + 1e-9 * abs(e):
+                    hit = combo; break
+            if hit is not None and any(c[0] > 0 for c in hit):
+                rep.violation("multiple-walker metadynamics oracle: walker %d at step %d misses the hills walker(s) %s deposited before rewriting their state file"
+                              % (w, s_, [p for p, c in zip(peers, hit) if c[0] > 0]), replay, "mw_window_%d_seed%d" % (idx, seed), found_input=True,
+                              signature="multiple walkers: hills a peer deposited before rewriting its state are missing until the next re-read of the states")
+                continue
+        if found is None:
+            rep.violation("multiple-walker metadynamics oracle: the energy walker %d reports at step %d (%r at x = %r) is not its own hills plus, for each peer, "
+                          "the first k hills that peer has deposited (some hill counted twice, lost out of order, or invented) (scenario %d: %d walkers, hill frequency %d, "
+                          "update frequency %d, restart frequency %d)" % (w, s_, e, x, idx, n, f, u, sc["R"]), replay, "mw_oracle_%d_seed%d" % (idx, seed), found_input=True)
+            return nprobe
+        # nothing that had been flushed one full read period ago may be missing (a cut file of a dead peer may lack its last record)
+        for p, k in zip(peers, found):
+            need = prev_seen[w][p] - (1 if (p == sc["dead"] and sc["did_cut"]) else 0)
+            # ambiguity: hills that contribute exactly 0 at x do not show in the energy
+            zero_tail = 0
+            for (t, c) in reversed(hills[p][:max(need, 0)]):
+                if gauss(c, x) == 0.0:
+                    zero_tail += 1
+                else:
+                    break
+            if k < need - zero_tail:
+                sig = None
+                if sc["R"] > 0 and all(h[0] <= (done[p] // sc["R"]) * sc["R"] for h in hills[p][k:need]):
+                    sig = "multiple walkers: hills a peer deposited before rewriting its state are missing until the next re-read of the states"
+                rep.violation("multiple-walker metadynamics oracle: walker %d at step %d holds only %d hills of walker %d although %d had been flushed before its "
+                              "previous read (scenario %d)" % (w, s_, k, p, need, idx), replay, "mw_lost_%d_seed%d" % (idx, seed), found_input=True, signature=sig)
+                if sig is None:
+                    return nprobe
+    return nprobe
+
+
 def extra(rep, tier, rng):
     exe = cvbuild.build_harness("rel")
     work = os.path.join(cvbuild.CACHE, "c14-%d" % os.getpid())
@@ -205,8 +406,19 @@ def extra(rep, tier, rng):
             stats["restarts"] += int(sc["restart"][0] >= 0); stats["restarts_with_pending"] += int(sc["restart"][0] >= 0 and sc["restart"][2])
             stats["dumps_compared"] += check_shared(rep, sc, outs, mout, idx, rep.seed)
             shutil.rmtree(sc["comm"], ignore_errors=True)
+        nmw = 6 if tier == "quick" else 50
+        stats.update({"meta_scenarios": 0, "meta_probes": 0, "meta_dead_peer": 0})
+        for idx in range(nmw):
+            sc = meta_scenario(rng.fork(), work, idx)
+            # removals of the killed walker's own files: hills + temporary state at set-up, then (temporary state, hills) per state write
+            outs = run_walkers_cwd(exe, sc["files"], sc["dir"], crash_walker=sc["dead"] if sc["crash"] else -1,
+                                   crash_remove=2 + 2 * (sc["dead_at"] // sc["R"]) if sc["crash"] else 0)
+            stats["meta_scenarios"] += 1; stats["meta_dead_peer"] += int(sc["dead"] >= 0 and not sc["crash"])
+            stats["meta_killed_between_files"] = stats.get("meta_killed_between_files", 0) + int(sc["crash"])
+            stats["meta_probes"] += check_meta(rep, sc, outs, idx, rep.seed)
+            shutil.rmtree(sc["dir"], ignore_errors=True)
     finally:
         shutil.rmtree(work, ignore_errors=True)
     rep.extra["multiwalker"] = stats
-    rep.cov["evaluations"] = rep.cov.get("evaluations", 0) + stats["shared_scenarios"]
-    rep.cov["distinct_nontrivial"] = rep.cov.get("distinct_nontrivial", 0) + stats["shared_scenarios"]
+    rep.cov["evaluations"] = rep.cov.get("evaluations", 0) + stats["shared_scenarios"] + stats.get("meta_scenarios", 0)
+    rep.cov["distinct_nontrivial"] = rep.cov.get("distinct_nontrivial", 0) + stats["shared_scenarios"] + stats.get("meta_scenarios", 0)
